@@ -15,6 +15,9 @@ THEOREMS = [
     "Wild.Link.satisfies_implies_listed",
     "Wild.Link.as_needed_overridden_witness",
     "Wild.Link.C37_full_false",
+    "Wild.Link.candidates_head",
+    "Wild.Link.resolve_first_dynamic",
+    "Wild.Link.as_needed_spec_partial",
 ]
 LEVEL = "proof"
 TECHNIQUE = "Lean 4 theorems over the M-Link loaded-set model (exact characterisation of DT_NEEDED) + whole-link differential correspondence; GNU ld / lld as oracle"
@@ -40,7 +43,8 @@ def gen(r):
             f["as_needed"] = r.chance(2, 3)
         if k == "ar":
             g += 1
-            f.update({"whole": False, "group": g, "thin": False})
+            # --whole-archive regions stay open over the shared objects that follow (the flag only concerns archives)
+            f.update({"whole": r.chance(1, 3), "group": g, "thin": False})
         files.append(f)
     nnames = r.range(1, 5)
     for n in range(nnames):
